@@ -6,11 +6,10 @@ import F1Verif.Generated.Facts
 import F1Verif.Expected
 namespace F1.Props.FactsC07
 
-theorem fact_t_Fail : F1.Generated.skel_t_Fail = F1.Expected.skel_t_Fail := by rfl
-theorem fact_t_FailNow : F1.Generated.skel_t_FailNow = F1.Expected.skel_t_FailNow := by rfl
+-- (t_Fail, t_FailNow, t_Reset, t_Failed: re-proved semantically on the regenerated MiniGo programs, see Props/Refine*.lean)
+
 theorem fact_t_handlePanic : F1.Generated.skel_t_handlePanic = F1.Expected.skel_t_handlePanic := by rfl
 theorem fact_t_CheckResults : F1.Generated.skel_t_CheckResults = F1.Expected.skel_t_CheckResults := by rfl
-theorem fact_t_Reset : F1.Generated.skel_t_Reset = F1.Expected.skel_t_Reset := by rfl
 theorem fact_t_teardown : F1.Generated.skel_t_teardown = F1.Expected.skel_t_teardown := by rfl
 theorem fact_active_Run : F1.Generated.skel_active_Run = F1.Expected.skel_active_Run := by rfl
 theorem fact_manager_makeIterationStatePool : F1.Generated.skel_manager_makeIterationStatePool = F1.Expected.skel_manager_makeIterationStatePool := by rfl
@@ -18,7 +17,6 @@ theorem fact_t_Errorf : F1.Generated.skel_t_Errorf = F1.Expected.skel_t_Errorf :
 theorem fact_t_Error : F1.Generated.skel_t_Error = F1.Expected.skel_t_Error := by rfl
 theorem fact_t_Fatalf : F1.Generated.skel_t_Fatalf = F1.Expected.skel_t_Fatalf := by rfl
 theorem fact_t_Fatal : F1.Generated.skel_t_Fatal = F1.Expected.skel_t_Fatal := by rfl
-theorem fact_t_Failed : F1.Generated.skel_t_Failed = F1.Expected.skel_t_Failed := by rfl
 theorem fact_active_newIterationState : F1.Generated.skel_active_newIterationState = F1.Expected.skel_active_newIterationState := by rfl
 
 end F1.Props.FactsC07
